@@ -239,7 +239,9 @@ impl Write for ScriptedSink {
         // the release monitor looks at what is offered, before any fault decides its fate
         if let Some(m) = &self.monitor {
             let pos = self.trace.borrow().src_pos;
-            let allowed = m.recs.iter().filter(|(end, _)| *end <= pos).map(|(_, c)| *c).max().unwrap_or(0);
+            // recs are in file order: ends and cumulative lengths are non-decreasing
+            let idx = m.recs.partition_point(|(end, _)| *end <= pos);
+            let allowed = if idx == 0 { 0 } else { m.recs[idx - 1].1 };
             let start = self.accepted.len();
             let end = start + buf.len();
             let ok = end <= allowed && end <= m.auth_plain.len() && m.auth_plain[start..end] == *buf;
